@@ -1095,7 +1095,7 @@ class C26(Prop):
         nd = {'quick': 6, 'thorough': 120, 'search': 60}.get(tier, 6)
         for _ in range(nd):
             prog = directed_program(rng)
-            rc = rng.randint(1, 10 ** 6) if rng.random() < 0.6 else 0
+            rc = rng.randint(1, 10 ** 6) if (rng.random() < 0.6 or 'assoc' in dumps(prog)) else 0
             if not frontend_ok(prog, False, rc):
                 continue
             yield Case([A('dfa'), False, prog, directed_inputs(rng, prog), rc], stream='directed')
